@@ -45,7 +45,7 @@ def rule_movegen(fx, rep):
         rep.violation("C17-MOVEGEN", "C17-MOVEGEN/" + v["key"], v["msg"] + " (a game containing or needing that move is then replayed wrongly or aborts the engine)", v["site"])
     rep.obligations += sub.obligations
     rep.discharged += sub.discharged
-    rep.rule("C17-MOVEGEN", sub.obligations, 100, not sub.violations, "move generator clauses (shared with C01)")
+    rep.rule("C17-MOVEGEN", sub.obligations, 60, not sub.violations, "move generator clauses (shared with C01)")
 
 
 def rule_forward(fx, rep):
